@@ -123,8 +123,65 @@ fn band<T: Sc>(t: &mut Toks, cx: &mut Ctx, to_q: Option<fn(&T) -> Option<Q>>) ->
     out
 }
 
+/// history of edits of ONE banded matrix (new, then resize / indexed write / fill / fill_band in any order); after every
+/// step the whole object is dumped (n, m1, m2 and the compact storage as the accessor returns it) and compared with a
+/// reference compact array maintained with the semantics of `Matrix::resize` (overlapping top-left block kept, new
+/// cells zero); views: every in-band element, the product with the all-ones vector, `==` with a freshly built twin
+fn band_hist<T: Sc>(t: &mut Toks, cx: &mut Ctx) -> String {
+    let (n0, m10, m20) = (t.usize(), t.usize(), t.usize());
+    let x0: T = t.get();
+    let nops = t.usize();
+    cx.meta("tag", T::TAG); cx.meta("ops", nops);
+    let mut b = Banded::<T>::new(n0, m10, m20, x0);
+    let (mut n, mut m1, mut m2) = (n0, m10, m20);
+    let mut rf: Vec<Vec<T>> = vec![vec![x0; m10 + m20 + 1]; n0];
+    let mut out = wr_band(&b);
+    for _ in 0..nops {
+        let op = t.next();
+        let before = wr_band(&b);
+        let r: Result<(), &'static str> = match op {
+            "resize" => { let (a, c, d) = (t.usize(), t.usize(), t.usize()); let r = guarded(|| b.resize(a, c, d));
+                if r.is_ok() { let w = c + d + 1; let mut nr = vec![vec![T::zero(); w]; a]; for i in 0..a.min(n) { for k in 0..w.min(m1 + m2 + 1) { nr[i][k] = rf[i][k]; } } rf = nr; n = a; m1 = c; m2 = d; }
+                r }
+            "set" => { let (i, j) = (t.usize(), t.usize()); let x: T = t.get(); let r = guarded(|| { b[(i, j)] = x; });
+                let inband = j <= i + m2 && i <= j + m1;
+                if inband && i < n && j < n { cx.check(r.is_ok(), "in-band indexed write panicked"); if r.is_ok() { rf[i][m1 + j - i] = x; } }
+                else if !inband { cx.check(r.is_err(), "out-of-band indexed write was accepted"); }
+                else if r.is_ok() { let k = m1 + j - i; if i < n && k < m1 + m2 + 1 { rf[i][k] = x; } }   // raw index beyond the matrix: a padding slot (outside the claim)
+                if r.is_err() { cx.check(wr_band(&b) == before, "a rejected indexed write modified the matrix"); }
+                r }
+            "fill" => { let x: T = t.get(); let r = guarded(|| b.fill(x)); if r.is_ok() { for row in rf.iter_mut() { for v in row.iter_mut() { *v = x; } } } r }
+            "fillband" => { let k = t.isize(); let x: T = t.get(); let r = guarded(|| b.fill_band(k, x));
+                let ok = k >= -(m1 as isize) && k <= m2 as isize;
+                cx.check(r.is_ok() == ok || n == 0, "fill_band: acceptance differs from the band range");
+                if r.is_ok() && ok { let c = (m1 as isize + k) as usize; for row in rf.iter_mut() { row[c] = x; } }
+                r }
+            _ => panic!("HARNESS: unknown banded op {}", op),
+        };
+        out.push_str(&format!(" ; {} {} | {}", op, match &r { Ok(_) => "ok".to_string(), Err(c) => format!("!{}", c) }, wr_band(&b)));
+        // the object is exactly the reference: shape fields, storage shape, every stored cell
+        let c = b.compact();
+        cx.check(b.size() == n && b.size_below() == m1 && b.size_above() == m2, "n / m1 / m2 differ from the reference after the history");
+        cx.check(c.rows() == n && c.cols() == m1 + m2 + 1, "compact storage is not n x (m1+m2+1) after the history");
+        if c.rows() == n && c.cols() == m1 + m2 + 1 { cx.check((0..n).all(|i| (0..m1 + m2 + 1).all(|k| c[(i, k)].same(&rf[i][k]))), "compact storage differs from the reference after the history"); }
+        // views
+        let twin = guarded(|| { let mut z = Banded::<T>::new(n, m1, m2, T::zero()); for i in 0..n { for k in 0..m1 + m2 + 1 { if i + k >= m1 && i + k - m1 < n { z[(i, i + k - m1)] = rf[i][k]; } } } z });
+        if let Ok(z) = &twin {
+            let same_inband = (0..n).all(|i| (0..n).all(|j| !(j <= i + m2 && i <= j + m1) || guarded(|| b[(i, j)]).map(|v| v.same(&z[(i, j)])).unwrap_or(false)));
+            cx.check(same_inband, "an in-band element differs from the freshly built twin");
+            let ones = Vector::new(n, T::one());
+            let (p1, p2) = (guarded(|| &b * &ones), guarded(|| z * &ones));
+            match (&p1, &p2) { (Ok(u), Ok(w)) => cx.check(same_vec(&u.vec, &w.vec), "product with the ones vector differs from the freshly built twin"), (Err(_), Err(_)) => {}, _ => cx.fail("product with the ones vector: one of history / twin panicked") }
+            out.push_str(&format!(" | {}", match &p1 { Ok(u) => wr_vector(u), Err(c) => format!("!{}", c) }));
+        }
+        if cx.skip.is_some() { break; }
+    }
+    out
+}
+
 pub fn exec(op: &str, t: &mut Toks, cx: &mut Ctx) -> Option<String> {
     match op {
+        "band_hist" => { let tag = t.next(); Some(match tag { "q" => band_hist::<Q>(t, cx), "f" => band_hist::<f64>(t, cx), _ => band_hist::<Cmplx>(t, cx) }) }
         "band" => { let tag = t.next(); Some(match tag { "q" => band::<Q>(t, cx, Some(|x: &Q| Some(*x))), "f" => band::<f64>(t, cx, Some(fq)), _ => band::<Cmplx>(t, cx, None) }) }
         _ => None,
     }
@@ -173,6 +230,21 @@ pub fn gen(rng: &mut Rng, tier: Tier, out: &mut Vec<String>) {
             if (n + 2 * m1 + m2) % 3 == 1 { let class = *rng.pick(&[0usize, 1, 3, 4, 6]); let w = 2 + rng.below(2); out.push(one_k::<f64>(rng, n, m1, m2, class, w)); }
             if (n + m1 + 2 * m2) % 7 == 2 { let class = *rng.pick(&[0usize, 4, 6]); out.push(one_k::<Cmplx>(rng, n, m1, m2, class, 2)); }
         } } }
+        // histories of one banded matrix: resize (shrink / grow / change of bandwidths), indexed writes, fills
+        for _ in 0..(if tier == Tier::Quick { 150 } else { 250 }) {
+            let (mut n, mut m1, mut m2) = (1 + rng.below(5), rng.below(3), rng.below(3));
+            let mut s = format!("band_hist q {} {} {} {}", n, m1, m2, Q::gen(rng, 0, 0).wr());
+            let nops = 2 + rng.below(7); let mut ops = String::new();
+            for _ in 0..nops { match rng.below(6) {
+                0 | 1 | 2 => { // resize: mostly the same total width (so that storage could be reused), shrinking and growing n
+                    let nn = rng.below(7); let (a, c) = if rng.chance(60) { (m1, m2) } else if rng.chance(50) && m1 + m2 > 0 { let a = rng.below(m1 + m2 + 1); (a, m1 + m2 - a) } else { (rng.below(3), rng.below(3)) };
+                    n = nn; m1 = a; m2 = c; ops.push_str(&format!(" resize {} {} {}", n, m1, m2)); }
+                3 => { let (i, j) = (rng.below(n + 1), rng.below(n + 1)); ops.push_str(&format!(" set {} {} {}", i, j, Q::gen(rng, 0, 0).wr())); }
+                4 => { ops.push_str(&format!(" fill {}", Q::gen(rng, 0, 0).wr())); }
+                _ => { ops.push_str(&format!(" fillband {} {}", rng.range(-3, 3), Q::gen(rng, 0, 0).wr())); }
+            } }
+            s.push_str(&format!(" {}{}", nops, ops)); out.push(s);
+        }
         // every value class on a few shapes
         for class in 0..7 { for (n, m1, m2) in [(2usize, 1usize, 1usize), (3, 1, 1), (4, 2, 1), (5, 1, 2), (6, 2, 2), (3, 2, 0), (3, 0, 2)] {
             out.push(one::<Q>(rng, n, m1, m2, class)); out.push(one::<f64>(rng, n, m1, m2, class)); } }
